@@ -620,6 +620,14 @@ func c02Compile(r *lp.Run, rng *lp.Rand) {
 		add(&c02Job{label: "response-matrix", what: what, spec: doc, convErr: ce})
 	}
 
+	// --- hostile paths: static path text whose bytes the router template copies into byte and string
+	// literals (the first byte of a tree edge, the byte that ends a parameter, the edge text itself)
+	for _, h := range c02HostilePathText {
+		for _, fl := range [][]string{nil, feats} {
+			add(&c02Job{label: "hostile-paths", what: fmt.Sprintf("path text %q", h), spec: hostilePathDoc(h), features: fl})
+		}
+	}
+
 	// --- collision stream
 	c02CollisionJobs(r, rng, add)
 
@@ -917,6 +925,36 @@ func normYAML(v any) any {
 // ---------------------------------------------------------------- hostile documents
 
 var c02Hostile = []string{"a\"b", "a\\b", "a\nb", "a`b", "a'b", "func", "type", "go", "select", "range", "interface", "map", "chan", "default", "package", "import", "var", "const", "123abc", "1", "-", "+1", "_", "__", "日本語", "İd", "Kelvin", "é", "a-b", "a_b", "a b", "AB", "aB", "Ab", "ID", "Id", "id", " ", "$ref", "*/", "/*", "//", "%s", "%d%", "{{.}}", "{x}", "a.b", "a/b", "<>", "=", "\u2028", "😀", "a\tb", "a\rb", "\\n", "\"", "\\", "`", "\x00", "a\x00b", "\ufeff", "x-y-z", "X_Y_Z", "x.y.z", "2fa", "oauth2", "Url", "HTTPS", "uuid", "ıd", "ſ", "a+b", "a<b", "a>b", "a=b", "Ünï", "snake_case_name", "kebab-case-name", "camelCaseName", "SCREAMING_SNAKE", "with space", "trailing ", " leading", "dots.in.name", "slash/in/name", "tilde~name", "pct%20name", "q?uery", "h#ash", "amp&", "semi;", "colon:", "at@", "bang!", "paren(", "brack[", "brace{", "pipe|", "caret^", "comma,"}
+
+// static path text: every sub-delimiter and the bytes that need quoting inside Go literals
+var c02HostilePathText = []string{"'", "\"", "\\", "`", "%27", "%22", "%5C", "%60", "$", "&", "+", ",", ";", "=", ":", "@", "!", "*", "(", ")", "~", "é", "%C3%A9", "\u2028", "%00", "%0A", " ", "<", ">", "|", "^", "[", "]", "%", "%%", "日", "😀", "''", "'\\'", "\\'", "\\n", "%7B", "\"+\"", "`+`", "*/", "//", "%2F", "."}
+
+// hostilePathDoc: the text h at the start of a route-tree edge (two routes that share everything before it),
+// as the byte that ends a parameter, as the whole of an edge, after a slash, and in front of a parameter
+func hostilePathDoc(h string) []byte {
+	op := func(id string, params ...string) map[string]any {
+		o := map[string]any{"operationId": id, "responses": map[string]any{"200": map[string]any{"description": "ok"}}}
+		var ps []any
+		for _, p := range params {
+			ps = append(ps, map[string]any{"name": p, "in": "path", "required": true, "schema": map[string]any{"type": "string"}})
+		}
+		if ps != nil {
+			o["parameters"] = ps
+		}
+		return map[string]any{"get": o}
+	}
+	paths := map[string]any{
+		"/v1/today":                  op("a"),
+		"/v1/today" + h + "s-menu":   op("b"),
+		"/users/{name}" + h + "s/in": op("c", "name"),
+		"/users/{name}":              op("d", "name"),
+		"/" + h:                      op("e"),
+		"/w/" + h + "{p}" + h + "/x": op("f", "p"),
+		"/z" + h + "/{q}":            op("g", "q"),
+	}
+	b, _ := json.Marshal(map[string]any{"openapi": "3.0.3", "info": map[string]any{"title": "t", "version": "1"}, "paths": paths})
+	return b
+}
 
 // name positions: what the templates copy into identifiers and // comments (K13: a control character there
 // is known to give unparsable output); with sanitize the same random document is built with the control
